@@ -278,7 +278,7 @@ Proof. unfold ScopeInv, TableInv, ResInv, scope0; cbn. repeat split; try constru
 
 (* every successful Builder run ends with injective naming tables; reserved names never name a Var *)
 Theorem build_main_scope_inv ffuel p un main b : build_main ffuel p un main = inl b -> ScopeInv (b_scope b).
-Proof. destruct ffuel as [|ff]; [discriminate|]. cbn [build_main]. intros H.
+Proof. destruct ffuel as [|ff]; [discriminate|]. unfold build_main. cbn [build_main_gen]. intros H.
   apply bind_ok in H. destruct H as [d [_ H]]. apply bind_ok in H. destruct H as [[[[mg s] rq] fs] [Hc H]].
   inversion H; subst. cbn [b_scope]. eapply compile_inv; [exact Hc|exact scope0_inv]. Qed.
 
